@@ -6,16 +6,24 @@
        a handle-local ghost state (does it hold tables.list.lock, which content
        of the list it has validated under the lock, which table files it knows,
        which ids it knows to have been listed / dropped / unlinked, its fresh
-       table, its temp file, the pending / done transaction of its Add).
+       tables (renamed into place, not listed yet: one for Add and for a
+       compaction, two for a two-table addition), its temp file, the pending /
+       done transaction of its Add).
        [allowed lg q] restricts the requests a program may issue in [lg],
        [possible lg q rs] restricts the responses the directory can give and
        [nxt lg q rs] is the ghost state afterwards.  Proved once for reload,
-       compact_range, auto_compact, add, close, call_prog.
+       compact_range (any range), auto_compact, add, add_multi, clean, close,
+       call_prog: ALL api operations.  A table file is unlinked only if it is
+       known to be dropped from the list for ever, or, under the list lock, if
+       the (validated) list does not name it (Clean; an addition taking back its
+       first table).
    S1/S3  A global invariant [GI] of the directory relative to a global ghost
        state (the table every id denotes, the set of ids ever listed), the
        interpretation [interp] of a local ghost state, and the proof that every
        allowed request preserves [GI], the issuer's [interp] (moving to [nxt])
-       and every other handle's [interp] (through [frame] / [keeps]).
+       and every other handle's [interp] (through [frame] / [keeps]; a table
+       that was never listed stays in place as long as somebody else holds the
+       list lock: [keepsL]).
    S4/S5  The world invariant [WInv], its preservation by [step] and [crash]
        together with the evaluation of [c04_loop] / [c05_loop] on the emitted
        events, and the two theorems. *)
@@ -222,7 +230,7 @@ Record lgh := mkL {
   sn : list nat;                 (* ids known to have been listed *)
   dd : list nat;                 (* ids known to be dropped from the list for ever *)
   gn : list nat;                 (* ids known to be unlinked *)
-  fr : option nat;               (* its fresh table, not listed yet *)
+  fr : list nat;                 (* its fresh tables, not listed yet (newest first) *)
   tm : option (nat * bool);      (* its temp file, and whether it certainly exists *)
   pd : option nat;               (* the transaction its next commit publishes *)
   dn : option nat }.             (* the transaction it has published in this call *)
@@ -231,35 +239,55 @@ Definition lnames (rs : resp) : list nat := match rs with SNames (Some l) => l |
 
 Definition commit_add (lg : lgh) (names : list nat) : Prop :=
   exists tx m n f, pd lg = Some tx /\ vw lg = Some (mnames m) /\ incl m (kn lg) /\
-    fr lg = Some n /\ In (n, f) (kn lg) /\
+    fr lg = [n] /\ In (n, f) (kn lg) /\
     tf_min f = next_index m /\ tf_max f = next_index m /\ tf_txs f = [tx] /\
     names = mnames m ++ [n].
 
 Definition commit_cmp (lg : lgh) (names : list nat) : Prop :=
   exists sub pre post n f, pd lg = None /\ vw lg = Some (pre ++ mnames sub ++ post) /\
-    incl sub (kn lg) /\ sub <> [] /\ fr lg = Some n /\ In (n, f) (kn lg) /\
+    incl sub (kn lg) /\ sub <> [] /\ fr lg = [n] /\ In (n, f) (kn lg) /\
     tf_min f = (match sub with (_, g) :: _ => tf_min g | [] => 0%N end) /\
     tf_max f = last_max sub /\ tf_txs f = flat_map (fun x => tf_txs (snd x)) sub /\
     names = pre ++ [n] ++ post.
 
+(* the commit of a two-table addition: the second table holds no transaction *)
+Definition commit_add2 (lg : lgh) (names : list nat) : Prop :=
+  exists tx m n1 f1 n2 f2, pd lg = Some tx /\ vw lg = Some (mnames m) /\ incl m (kn lg) /\
+    fr lg = [n2; n1] /\ n1 <> n2 /\ In (n1, f1) (kn lg) /\ In (n2, f2) (kn lg) /\
+    tf_min f1 = next_index m /\ tf_max f1 = next_index m /\ tf_txs f1 = [tx] /\
+    tf_min f2 = (next_index m + 1)%N /\ tf_max f2 = (next_index m + 1)%N /\ tf_txs f2 = [] /\
+    names = mnames m ++ [n1; n2].
+
+Definition rmv (n : nat) (l : list nat) : list nat := filter (fun x => negb (Nat.eqb x n)) l.
+
+Lemma in_rmv : forall x n l, In x (rmv n l) <-> In x l /\ x <> n.
+Proof.
+  intros x n l. unfold rmv. rewrite filter_In. split; intros [A B]; (split; [exact A|]).
+  - apply negb_true_iff in B. apply Nat.eqb_neq in B. exact B.
+  - apply negb_true_iff. apply Nat.eqb_neq. exact B.
+Qed.
+
 Definition allowed (lg : lgh) (q : req) : Prop :=
   match q with
   | QRenameTmp t _ _ _ => lk lg = true /\ tm lg = Some (t, true)
-  | QCommitList names => commit_add lg names \/ commit_cmp lg names
+  | QCommitList names => commit_add lg names \/ commit_cmp lg names \/ commit_add2 lg names
   | QRemove PLL => lk lg = true
-  | QRemove (PT n) => In n (dd lg)
+  | QRemove (PT n) => In n (dd lg) \/ (lk lg = true /\ exists l, vw lg = Some l /\ ~ In n l)
   | QRemove (PTmp t) => exists b, tm lg = Some (t, b)
   | QRemoveOne cands => cands <> [] /\ incl cands (dd lg)
+  | QOpenOne cands => cands <> []
   | _ => True
   end.
 
 Definition possible (lg : lgh) (q : req) (rs : resp) : Prop :=
   match q with
-  | QReadList => (exists o, rs = SNames o) /\ NoDup (lnames rs) /\ (forall n, In n (gn lg) -> ~ In n (lnames rs))
+  | QReadList => (exists o, rs = SNames o) /\ NoDup (lnames rs) /\ (forall n, In n (gn lg) -> ~ In n (lnames rs)) /\
+                 (forall l, vw lg = Some l -> lnames rs = l)
   | QOpenTab n => (exists f, rs = STab f) \/ rs = SNoEnt
   | QCreateTemp => exists t, rs = STmp t
   | QRenameTmp t mn mx txs =>
-      exists n f, rs = SNew n f /\ tf_min f = mn /\ tf_max f = mx /\ tf_txs f = txs /\ ~ In n (sn lg)
+      exists n f, rs = SNew n f /\ tf_min f = mn /\ tf_max f = mx /\ tf_txs f = txs /\ ~ In n (sn lg) /\ ~ In n (fr lg)
+  | QOpenOne cands => exists n o, rs = SVisited n o /\ In n cands
   | _ => True
   end.
 
@@ -286,14 +314,19 @@ Definition nxt (lg : lgh) (q : req) (rs : resp) : lgh :=
       end
   | QRenameTmp t _ _ _ =>
       match rs with
-      | SNew n f => mkL (lk lg) (vw lg) ((n, f) :: kn lg) (sn lg) (dd lg) (gn lg) (Some n) (Some (t, false)) (pd lg) (dn lg)
+      | SNew n f => mkL (lk lg) (vw lg) ((n, f) :: kn lg) (sn lg) (dd lg) (gn lg) (n :: fr lg) (Some (t, false)) (pd lg) (dn lg)
       | _ => lg
       end
   | QCommitList names =>
       mkL false None (kn lg) (sn lg)
           (filter (fun n => negb (mem_nat n names)) (match vw lg with Some l => l | None => [] end) ++ dd lg)
-          (gn lg) None (tm lg) None (match pd lg with Some tx => Some tx | None => dn lg end)
-  | QRemove PLL => mkL false None (kn lg) (sn lg) (dd lg) (gn lg) None (tm lg) (pd lg) (dn lg)
+          (gn lg) [] (tm lg) None (match pd lg with Some tx => Some tx | None => dn lg end)
+  | QRemove PLL => mkL false None (kn lg) (sn lg) (dd lg) (gn lg) [] (tm lg) (pd lg) (dn lg)
+  | QRemove (PT n) =>
+      match fr lg with
+      | [] => lg
+      | _ => mkL (lk lg) (vw lg) (kn lg) (sn lg) (dd lg) (gn lg) (rmv n (fr lg)) (tm lg) (pd lg) (dn lg)
+      end
   | QRemove (PTmp t) => mkL (lk lg) (vw lg) (kn lg) (sn lg) (dd lg) (gn lg) (fr lg) (Some (t, false)) (pd lg) (dn lg)
   | _ => lg
   end.
@@ -348,13 +381,13 @@ Qed.
 
 (* ---------------- the small loops ---------------- *)
 
-Lemma remove_tabs_ok : forall l lg, incl l (dd lg) -> ok lg (remove_tabs l) (fun lg' _ => lg' = lg).
+Lemma remove_tabs_ok : forall l lg, fr lg = [] -> incl l (dd lg) -> ok lg (remove_tabs l) (fun lg' _ => lg' = lg).
 Proof.
-  induction l as [|n t IH]; intros lg H; cbn [remove_tabs].
+  induction l as [|n t IH]; intros lg Hfr H; cbn [remove_tabs].
   - cbn. reflexivity.
   - apply ok_op.
-    + cbn. apply H. left. reflexivity.
-    + intros rs _. cbn [nxt]. apply IH. intros x Hx. apply H. right. exact Hx.
+    + cbn. left. apply H. left. reflexivity.
+    + intros rs _. cbn [nxt]. rewrite Hfr. apply IH; [exact Hfr|]. intros x Hx. apply H. right. exact Hx.
 Qed.
 
 Lemma remove_tlocks_ok : forall l lg, ok lg (remove_tlocks l) (fun lg' _ => lg' = lg).
@@ -432,8 +465,21 @@ Proof.
         apply mem_nat_In in Hnn. rewrite Hnn. left. reflexivity.
 Qed.
 
-Lemma reload_ok : forall attempts reuse old lg,
-  lk lg = false -> incl old (kn lg) -> incl (mnames old) (sn lg) ->
+(* a handle that holds the list lock has validated its view *)
+Definition vwok (lg : lgh) : Prop := lk lg = true -> exists l, vw lg = Some l.
+
+Lemma readlist_samep : forall lg rs, vwok lg -> possible lg QReadList rs -> samep lg (nxt lg QReadList rs).
+Proof.
+  intros lg rs Hv (_ & _ & _ & Hvw). unfold samep. cbn [nxt lk vw fr tm pd dn].
+  repeat split. destruct (lk lg) eqn:E; [|reflexivity].
+  destruct (Hv E) as [l El]. rewrite El. f_equal. apply Hvw. exact El.
+Qed.
+
+Lemma vwok_samep : forall a b, samep a b -> vwok a -> vwok b.
+Proof. intros a b (A & B & _) H E. rewrite A in E. rewrite B. apply H. exact E. Qed.
+
+Lemma reload_ok_gen : forall attempts reuse old lg,
+  vwok lg -> incl old (kn lg) -> incl (mnames old) (sn lg) ->
   ok lg (reload attempts reuse old)
      (fun lg' res => ext lg lg' /\ samep lg lg' /\
         incl (fst res) (kn lg') /\ incl (mnames (fst res)) (sn lg') /\ snd res = RlOk).
@@ -442,12 +488,11 @@ Proof.
   - cbn. split; [apply ext_refl|]. split; [apply samep_refl|]. auto.
   - apply ok_op; [exact I|]. intros rs Hp.
     change (match rs with SNames (Some l) => l | _ => [] end) with (lnames rs).
-    destruct Hp as (_ & Hnd & Hgn).
-    set (lg1 := nxt lg QReadList rs).
+    pose proof (readlist_samep Hlk Hp) as S1.
+    destruct Hp as (_ & Hnd & Hgn & _).
+    set (lg1 := nxt lg QReadList rs) in *.
     assert (E1 : ext lg lg1).
     { unfold ext, lg1. cbn. repeat split; try apply incl_refl; intros x Hx; apply in_or_app; right; exact Hx. }
-    assert (S1 : samep lg lg1).
-    { unfold samep, lg1. cbn. rewrite Hlk. repeat split. }
     eapply ok_bind.
     + apply open_all_ok with (lg := lg1).
       * destruct E1 as (E & _). eapply incl_tran; eauto.
@@ -464,26 +509,34 @@ Proof.
         -- intros lg3 _ ->. cbn [ok fst snd].
            split; [eapply ext_trans; eauto|]. split; [eapply samep_trans; eauto|]. auto.
       * destruct Ho as [n [Hn Hg]].
+        assert (V2 : vwok lg2) by (eapply vwok_samep; [exact S2|]; eapply vwok_samep; [exact S1|exact Hlk]).
         apply ok_op; [exact I|]. intros rs2 Hp2.
         change (match rs2 with SNames (Some l) => l | _ => [] end) with (lnames rs2).
-        destruct Hp2 as (_ & _ & Hgn2).
+        pose proof (readlist_samep V2 Hp2) as S3.
+        destruct Hp2 as (_ & _ & Hgn2 & _).
         destruct (names_eqb (lnames rs2) (lnames rs)) eqn:Eq.
         -- exfalso. apply list_nat_eqb_eq in Eq. apply (Hgn2 n Hg). rewrite Eq. exact Hn.
-        -- set (lg3 := nxt lg2 QReadList rs2).
+        -- set (lg3 := nxt lg2 QReadList rs2) in *.
            assert (E3 : ext lg2 lg3).
            { unfold ext, lg3. cbn. repeat split; try apply incl_refl; intros x Hx; apply in_or_app; right; exact Hx. }
-           assert (S3 : samep lg2 lg3).
-           { unfold samep, lg3. cbn. destruct S2 as (L2 & _). destruct S1 as (L1 & _).
-             rewrite L2, L1, Hlk. repeat split. }
            assert (E : ext lg lg3) by (eapply ext_trans; [|eauto]; eapply ext_trans; eauto).
            assert (S : samep lg lg3) by (eapply samep_trans; [|eauto]; eapply samep_trans; eauto).
            eapply ok_conseq.
            ++ apply IH.
-              ** destruct S as (L & _). rewrite L. exact Hlk.
+              ** eapply vwok_samep; [exact S|exact Hlk].
               ** destruct E as (E & _). eapply incl_tran; eauto.
               ** destruct E as (_ & E & _). eapply incl_tran; eauto.
            ++ cbn beta. intros lg4 res (E4 & S4 & R).
               split; [eapply ext_trans; eauto|]. split; [eapply samep_trans; eauto|]. exact R.
+Qed.
+
+Lemma reload_ok : forall attempts reuse old lg,
+  lk lg = false -> incl old (kn lg) -> incl (mnames old) (sn lg) ->
+  ok lg (reload attempts reuse old)
+     (fun lg' res => ext lg lg' /\ samep lg lg' /\
+        incl (fst res) (kn lg') /\ incl (mnames (fst res)) (sn lg') /\ snd res = RlOk).
+Proof.
+  intros attempts reuse old lg Hlk. apply reload_ok_gen. intro E. congruence.
 Qed.
 
 Lemma open_reload_ok : forall attempts lg,
@@ -530,14 +583,14 @@ Qed.
 
 (* ---------------- close ---------------- *)
 
-Lemma close_ok : forall m lg, incl (mnames m) (sn lg) ->
+Lemma close_ok : forall m lg, fr lg = [] -> incl (mnames m) (sn lg) ->
   ok lg (close m) (fun _ _ => True).
 Proof.
-  intros m lg Hm. unfold close. apply ok_op; [exact I|]. intros rs Hp.
+  intros m lg Hfr Hm. unfold close. apply ok_op; [exact I|]. intros rs Hp.
   change (match rs with SNames (Some l) => l | _ => [] end) with (lnames rs).
   destruct (lnames rs) as [|a t] eqn:E; [cbn; exact I|].
   eapply ok_conseq.
-  - apply remove_tabs_ok. intros x Hx. apply filter_In in Hx as [Hx1 Hx2].
+  - apply remove_tabs_ok; [exact Hfr|]. intros x Hx. apply filter_In in Hx as [Hx1 Hx2].
     cbn [nxt dd]. apply in_or_app. left. apply filter_In. rewrite E. split; [apply Hm; exact Hx1|exact Hx2].
   - intros; exact I.
 Qed.
@@ -546,6 +599,7 @@ Qed.
 
 Definition idle_post (lg : lgh) (lg' : lgh) (m : mem) : Prop :=
   lk lg' = false /\ pd lg' = None /\ dn lg' = dn lg /\ incl m (kn lg') /\ incl (mnames m) (sn lg').
+(* (the fresh tables of a call are tracked by the residue judgement of ResidueProofs) *)
 
 Lemma length_mnames : forall m : mem, length (mnames m) = length m.
 Proof. intro m. unfold mnames. apply map_length. Qed.
@@ -595,7 +649,7 @@ Proof.
   set (lg5 := nxt lg4 (QCreateExcl PLL) SOk).
   apply ok_op; [exact I|]. intros c2 Hc2.
   change (match c2 with SNames (Some l) => l | _ => [] end) with (lnames c2).
-  destruct Hc2 as (_ & Hnd & _).
+  destruct Hc2 as (_ & Hnd & _ & _).
   set (lg6 := nxt lg5 QReadList c2).
   assert (L6 : lk lg6 = true) by reflexivity.
   assert (T6 : tm lg6 = Some (tmp, true)) by reflexivity.
@@ -606,12 +660,12 @@ Proof.
   { unfold lg6. cbn [nxt sn]. intros x Hx. apply in_or_app. right. apply N2. exact Hx. }
   destruct (find_run (mnames sub) (lnames c2) 0) as [start|] eqn:Hfr.
   - apply find_run_spec in Hfr as [_ Hfr]. rewrite Nat.sub_0_r, length_mnames in Hfr.
-    apply ok_op; [split; [exact L6|exact T6]|]. intros nw (n & f & -> & Fmin & Fmax & Ftx & Hfresh).
+    apply ok_op; [split; [exact L6|exact T6]|]. intros nw (n & f & -> & Fmin & Fmax & Ftx & Hfresh & _).
     set (lg7 := nxt lg6 (QRenameTmp tmp (match sub with (_, f0) :: _ => tf_min f0 | [] => 0%N end) (last_max sub)
                           (flat_map (fun x => tf_txs (snd x)) sub)) (SNew n f)).
     set (names := firstn start (lnames c2) ++ [n] ++ skipn (start + length sub) (lnames c2)).
     apply ok_op.
-    { right. exists sub, (firstn start (lnames c2)), (skipn (start + length sub) (lnames c2)), n, f.
+    { right. left. exists sub, (firstn start (lnames c2)), (skipn (start + length sub) (lnames c2)), n, f.
       split; [exact Hpd|]. split; [cbn [lg7 nxt vw]; rewrite V6, <- Hfr; reflexivity|].
       split; [intros x Hx; right; apply Hm; apply Hsub; exact Hx|].
       split; [exact Hsubne|]. split; [reflexivity|]. split; [left; reflexivity|].
@@ -621,7 +675,7 @@ Proof.
     assert (L8 : lk lg8 = false) by reflexivity.
     assert (K8 : incl m (kn lg8)) by (intros x Hx; right; apply Hm; exact Hx).
     eapply ok_bind.
-    { apply remove_tabs_ok. intros x Hx. unfold lg8. cbn [nxt dd lg7 vw]. rewrite V6.
+    { apply remove_tabs_ok; [reflexivity|]. intros x Hx. unfold lg8. cbn [nxt dd lg7 vw]. rewrite V6.
       apply in_or_app. left. apply filter_In.
       assert (Hxc : In x (lnames c2)).
       { rewrite Hfr. apply in_or_app. right. apply in_or_app. left. exact Hx. }
@@ -673,10 +727,10 @@ Definition add_post (kind : add_kind) (lg' : lgh) (res : mem * apires) : Prop :=
 
 Lemma add_ok : forall attempts kind auto m lg,
   lk lg = false -> incl m (kn lg) -> incl (mnames m) (sn lg) ->
-  pd lg = (match kind with KAdd tx => Some tx | _ => None end) -> dn lg = None ->
+  pd lg = (match kind with KAdd tx => Some tx | _ => None end) -> dn lg = None -> fr lg = [] ->
   ok lg (add attempts kind auto m) (add_post kind).
 Proof.
-  intros attempts kind auto m lg Hlk Hm Hmn Hpd Hdn. unfold add.
+  intros attempts kind auto m lg Hlk Hm Hmn Hpd Hdn Hfr0. unfold add.
   assert (Hfail : forall lgx, lk lgx = false -> incl m (kn lgx) -> incl (mnames m) (sn lgx) -> dn lgx = None ->
             ok lgx (do! rl := reload attempts true m in Ret (fst rl, RLockFailure)) (add_post kind)).
   { intros lgx A B C D. eapply ok_bind; [apply reload_ok; assumption|].
@@ -703,13 +757,14 @@ Proof.
   destruct kind as [tx| |].
   - (* a real transaction *)
     apply ok_op; [exact I|]. intros r5 _. cbn [nxt].
-    apply ok_op; [split; [exact L2|exact T4]|]. intros nw (n & f & -> & Fmin & Fmax & Ftx & Hfresh).
+    apply ok_op; [split; [exact L2|exact T4]|]. intros nw (n & f & -> & Fmin & Fmax & Ftx & Hfresh & _).
     set (lg6 := nxt lg4 (QRenameTmp tmp (next_index m) (next_index m) [tx]) (SNew n f)).
     apply ok_op; [exists false; reflexivity|]. intros r7 _.
     set (lg7 := nxt lg6 (QRemove (PTmp tmp)) r7).
     apply ok_op.
     { left. exists tx, m, n, f. split; [exact Hpd|]. split; [exact V2|].
-      split; [intros x Hx; right; apply Hm; exact Hx|]. split; [reflexivity|]. split; [left; reflexivity|].
+      split; [intros x Hx; right; apply Hm; exact Hx|].
+      split; [cbn [lg7 nxt fr lg6 lg4 lg2 lg1]; rewrite Hfr0; reflexivity|]. split; [left; reflexivity|].
       repeat split; auto. }
     intros r8 _.
     set (lg8 := nxt lg7 (QCommitList (mnames m ++ [n])) r8).
@@ -740,15 +795,257 @@ Proof.
     cbn [ok]. split; [exact K2|]. split; [exact N2|]. left. reflexivity.
 Qed.
 
-(* ---------------- call_prog ---------------- *)
+(* ---------------- add_multi ---------------- *)
 
-(* scripts use only the modelled operations *)
-Definition modelled (o : apiop) : bool := match o with AAddMulti _ _ | AClean => false | _ => true end.
+Lemma add_multi_ok : forall attempts tx same m lg,
+  lk lg = false -> incl m (kn lg) -> incl (mnames m) (sn lg) ->
+  pd lg = Some tx -> dn lg = None -> fr lg = [] ->
+  ok lg (add_multi attempts tx same m) (add_post (KAdd tx)).
+Proof.
+  intros attempts tx same m lg Hlk Hm Hmn Hpd Hdn Hfr0. unfold add_multi.
+  assert (Hfail : forall lgx, incl m (kn lgx) -> incl (mnames m) (sn lgx) -> dn lgx = None ->
+            add_post (KAdd tx) lgx (m, RLockFailure)).
+  { intros lgx A B C. split; [exact A|]. split; [exact B|]. right. split; [reflexivity|exact C]. }
+  apply ok_op; [exact I|]. intros r _.
+  destruct r; try (cbn [nxt ok]; apply Hfail; assumption).
+  set (lg1 := nxt lg (QCreateExcl PLL) SOk).
+  apply ok_op; [exact I|]. intros c Hc.
+  change (match c with SNames (Some l) => l | _ => [] end) with (lnames c).
+  set (lg2 := nxt lg1 QReadList c).
+  assert (L2 : lk lg2 = true) by reflexivity.
+  assert (K2 : incl m (kn lg2)) by exact Hm.
+  assert (N2 : incl (mnames m) (sn lg2)).
+  { unfold lg2, lg1. cbn. intros x Hx. apply in_or_app. right. apply Hmn. exact Hx. }
+  destruct (names_eqb (lnames c) (mnames m)) eqn:Eq; cbn [negb].
+  2:{ apply ok_op; [exact L2|]. intros r3 _. cbn [ok]. apply Hfail; [exact K2|exact N2|exact Hdn]. }
+  apply list_nat_eqb_eq in Eq.
+  assert (V2 : vw lg2 = Some (mnames m)) by (cbn; rewrite Eq; reflexivity).
+  apply ok_op; [exact I|]. intros t [tmp ->].
+  set (lg4 := nxt lg2 QCreateTemp (STmp tmp)).
+  assert (T4 : tm lg4 = Some (tmp, true)) by reflexivity.
+  apply ok_op; [exact I|]. intros r5 _. cbn [nxt].
+  apply ok_op; [split; [exact L2|exact T4]|]. intros nw (n1 & f1 & -> & Fmin1 & Fmax1 & Ftx1 & Hfresh1 & _).
+  set (lg6 := nxt lg4 (QRenameTmp tmp (next_index m) (next_index m) [tx]) (SNew n1 f1)).
+  assert (F6 : fr lg6 = [n1]) by (cbn [lg6 nxt fr lg4 lg2 lg1]; rewrite Hfr0; reflexivity).
+  apply ok_op; [exists false; reflexivity|]. intros r7 _.
+  set (lg7 := nxt lg6 (QRemove (PTmp tmp)) r7).
+  apply ok_op; [exact I|]. intros t2 [tmp2 ->].
+  set (lg8 := nxt lg7 QCreateTemp (STmp tmp2)).
+  assert (T8 : tm lg8 = Some (tmp2, true)) by reflexivity.
+  assert (L8 : lk lg8 = true) by reflexivity.
+  assert (V8 : vw lg8 = Some (mnames m)) by exact V2.
+  assert (F8 : fr lg8 = [n1]) by exact F6.
+  assert (K8 : incl m (kn lg8)) by (intros x Hx; right; apply Hm; exact Hx).
+  assert (Hn1m : ~ In n1 (mnames m)) by (intro X; apply Hfresh1; apply N2; exact X).
+  assert (K8n : In (n1, f1) (kn lg8)) by (cbn [lg8 lg7 lg6 nxt kn]; left; reflexivity).
+  destruct same.
+  - (* the second table is refused: the first is taken back *)
+    apply ok_op; [exists true; exact T8|]. intros r9 _.
+    apply ok_op.
+    { right. split; [exact L8|]. exists (mnames m). split; [exact V8|exact Hn1m]. }
+    intros r10 _.
+    apply ok_op.
+    { cbn [nxt]. change (fr (nxt lg8 (QRemove (PTmp tmp2)) r9)) with (fr lg8). rewrite F8. reflexivity. }
+    intros r11 _. cbn [ok]. apply Hfail.
+    + cbn [nxt]. change (fr (nxt lg8 (QRemove (PTmp tmp2)) r9)) with (fr lg8). rewrite F8. exact K8.
+    + cbn [nxt]. change (fr (nxt lg8 (QRemove (PTmp tmp2)) r9)) with (fr lg8). rewrite F8. exact N2.
+    + cbn [nxt]. change (fr (nxt lg8 (QRemove (PTmp tmp2)) r9)) with (fr lg8). rewrite F8. exact Hdn.
+  - apply ok_op; [exact I|]. intros r9 _.
+    set (lg9 := nxt lg8 (QOpenTab n1) r9).
+    assert (X9 : lk lg9 = true /\ vw lg9 = Some (mnames m) /\ fr lg9 = [n1] /\ tm lg9 = Some (tmp2, true) /\
+                 pd lg9 = Some tx /\ dn lg9 = None /\ incl (kn lg8) (kn lg9) /\ sn lg9 = sn lg8).
+    { unfold lg9. destruct r9; cbn [nxt lk vw fr tm pd dn kn sn];
+        (split; [exact L8|]; split; [exact V8|]; split; [exact F8|]; split; [exact T8|]; split; [exact Hpd|];
+         split; [exact Hdn|]; split; [|reflexivity]); try apply incl_refl. apply incl_tl, incl_refl. }
+    destruct X9 as (L9 & V9 & F9 & T9 & P9 & D9 & K9 & S9).
+    apply ok_op; [exact I|]. intros r10 _. cbn [nxt].
+    apply ok_op; [split; [exact L9|exact T9]|]. intros nw2 (n2 & f2 & -> & Fmin2 & Fmax2 & Ftx2 & Hfresh2 & Hnf2).
+    rewrite F9 in Hnf2.
+    assert (Hne : n1 <> n2) by (intro X; apply Hnf2; left; exact X).
+    set (lg11 := nxt lg9 (QRenameTmp tmp2 (next_index m + 1)%N (next_index m + 1)%N []) (SNew n2 f2)).
+    apply ok_op; [exists false; reflexivity|]. intros r12 _.
+    set (lg12 := nxt lg11 (QRemove (PTmp tmp2)) r12).
+    apply ok_op.
+    { right. right. exists tx, m, n1, f1, n2, f2.
+      split; [exact P9|]. split; [exact V9|].
+      split; [intros x Hx; cbn [lg12 lg11 nxt kn]; right; apply K9; apply K8; exact Hx|].
+      split; [cbn [lg12 lg11 nxt fr]; rewrite F9; reflexivity|].
+      split; [exact Hne|].
+      split; [cbn [lg12 lg11 nxt kn]; right; apply K9; exact K8n|].
+      split; [cbn [lg12 lg11 nxt kn]; left; reflexivity|].
+      repeat split; assumption. }
+    intros r13 _.
+    set (lg13 := nxt lg12 (QCommitList (mnames m ++ [n1; n2])) r13).
+    assert (D13 : dn lg13 = Some tx).
+    { unfold lg13. cbn [nxt dn lg12 lg11 pd]. rewrite P9. reflexivity. }
+    eapply ok_bind.
+    { apply reload_ok with (lg := lg13); [reflexivity| |].
+      - intros x Hx. cbn [lg13 lg12 lg11 nxt kn]. right. apply K9. apply K8. exact Hx.
+      - cbn [lg13 nxt sn lg12 lg11]. rewrite S9. exact N2. }
+    cbn beta. intros lg14 rl (_ & S14 & R1 & R2 & _).
+    destruct S14 as (A1 & A2 & A3 & A4 & A5 & A6).
+    cbn [ok]. split; [exact R1|]. split; [exact R2|]. left. split; [reflexivity|]. rewrite A6. exact D13.
+Qed.
+
+(* ---------------- clean ---------------- *)
+
+(* a judgement about the results only (no obligations): to add facts to an [ok] *)
+Fixpoint okp {A} (lg : lgh) (p : prog A) (Q : lgh -> A -> Prop) : Prop :=
+  match p with
+  | Ret a => Q lg a
+  | Op q k => forall rs, possible lg q rs -> okp (nxt lg q rs) (k rs) Q
+  end.
+
+Lemma okp_bind : forall {A B} (p : prog A) (f : A -> prog B) lg Q Q',
+  okp lg p Q -> (forall lg' a, Q lg' a -> okp lg' (f a) Q') -> okp lg (pbind p f) Q'.
+Proof.
+  induction p as [a|q k IH]; intros f lg Q Q' H Hf; cbn [pbind okp] in *.
+  - apply Hf. exact H.
+  - intros rs Hp. eapply IH; eauto.
+Qed.
+
+Lemma okp_conseq : forall {A} (p : prog A) lg (Q Q' : lgh -> A -> Prop),
+  okp lg p Q -> (forall lg' a, Q lg' a -> Q' lg' a) -> okp lg p Q'.
+Proof.
+  induction p as [a|q k IH]; intros lg Q Q' H HQ; cbn [okp] in *.
+  - apply HQ. exact H.
+  - intros rs Hp. eapply IH; eauto.
+Qed.
+
+Lemma ok_okp : forall {A} (p : prog A) lg (Q1 Q2 : lgh -> A -> Prop),
+  ok lg p Q1 -> okp lg p Q2 -> ok lg p (fun lg' a => Q1 lg' a /\ Q2 lg' a).
+Proof.
+  induction p as [a|q k IH]; intros lg Q1 Q2 H1 H2; cbn [ok okp] in *.
+  - split; assumption.
+  - destruct H1 as [Ha Hk]. split; [exact Ha|]. intros rs Hp. apply IH; auto.
+Qed.
+
+Lemma mnames_rev' : forall m : mem, mnames (rev m) = rev (mnames m).
+Proof. intro m. unfold mnames. apply map_rev. Qed.
+
+Lemma open_all_okp : forall reuse old names acc lg,
+  okp lg (open_all reuse old names acc)
+      (fun lg' o => lk lg' = lk lg /\ vw lg' = vw lg /\
+                    forall m, o = Some m -> mnames m = rev (mnames acc) ++ names).
+Proof.
+  intros reuse old. induction names as [|n t IH]; intros acc lg; cbn [open_all].
+  - cbn [okp]. split; [reflexivity|]. split; [reflexivity|].
+    intros m E. inversion E; subst. rewrite mnames_rev', app_nil_r. reflexivity.
+  - assert (Hstep : forall f lgx, lk lgx = lk lg -> vw lgx = vw lg ->
+              okp lgx (open_all reuse old t ((n, f) :: acc))
+                (fun lg' o => lk lg' = lk lg /\ vw lg' = vw lg /\
+                              forall m, o = Some m -> mnames m = rev (mnames acc) ++ n :: t)).
+    { intros f lgx A B. eapply okp_conseq; [apply IH|]. cbn beta. intros lg' o (E1 & E2 & H).
+      split; [congruence|]. split; [congruence|].
+      intros m Em. rewrite (H m Em). cbn [mnames map fst rev]. rewrite <- app_assoc. reflexivity. }
+    destruct (if reuse then lookup n old else None) as [f|]; [apply Hstep; reflexivity|].
+    cbn [pbind op okp]. intros rs Hp. destruct Hp as [[f ->]| ->].
+    + apply Hstep; reflexivity.
+    + cbn [okp nxt lk vw]. split; [reflexivity|]. split; [reflexivity|]. intros m E. discriminate E.
+Qed.
+
+Lemma remove_any_okp : forall fuel cands lg, okp lg (remove_any fuel cands) (fun lg' _ => lg' = lg).
+Proof.
+  induction fuel as [|f IH]; intros cands lg.
+  - destruct cands; cbn; reflexivity.
+  - destruct cands as [|c cands]; [cbn; reflexivity|].
+    cbn [remove_any pbind op okp]. intros rs _. cbn [nxt]. destruct rs; try (cbn; reflexivity). apply IH.
+Qed.
+
+(* under the list lock, with a validated view, a reload returns the listed stack *)
+Lemma reload_okp : forall a reuse old lg l,
+  lk lg = true -> vw lg = Some l -> mnames old = l ->
+  okp lg (reload a reuse old) (fun _ res => mnames (fst res) = l).
+Proof.
+  induction a as [|a IH]; intros reuse old lg l Hlk Hvw Hold; cbn [reload].
+  - cbn [okp fst]. exact Hold.
+  - cbn [pbind op okp]. intros rs Hp.
+    change (match rs with SNames (Some l) => l | _ => [] end) with (lnames rs).
+    destruct Hp as (_ & _ & _ & Hl). specialize (Hl l Hvw).
+    set (lg1 := nxt lg QReadList rs).
+    assert (L1 : lk lg1 = true) by exact Hlk.
+    assert (V1 : vw lg1 = Some l) by (unfold lg1; cbn [nxt vw]; rewrite Hlk, Hl; reflexivity).
+    eapply okp_bind; [apply open_all_okp|]. cbn beta. intros lg2 o (L2 & V2 & Ho).
+    rewrite L1 in L2. rewrite V1 in V2.
+    destruct o as [m|].
+    + eapply okp_bind; [apply remove_any_okp|]. cbn beta. intros lg3 _ ->. cbn [okp fst].
+      rewrite (Ho m eq_refl). cbn [mnames map rev app]. exact Hl.
+    + cbn [pbind op okp]. intros rs2 Hp2.
+      change (match rs2 with SNames (Some l) => l | _ => [] end) with (lnames rs2).
+      destruct Hp2 as (_ & _ & _ & Hl2). specialize (Hl2 l V2).
+      destruct (names_eqb (lnames rs2) (lnames rs)); [cbn [okp fst]; exact Hold|].
+      apply IH; [exact L2| |exact Hold]. cbn [nxt vw]. rewrite L2, Hl2. reflexivity.
+Qed.
+
+Lemma clean_loop_ok : forall fuel cands mx lg l,
+  lk lg = true -> vw lg = Some l -> fr lg = [] -> (forall n, In n cands -> ~ In n l) ->
+  ok lg (clean_loop fuel cands mx) (fun lg' _ => lg' = lg).
+Proof.
+  induction fuel as [|f IH]; intros cands mx lg l Hlk Hvw Hfr Hc.
+  - destruct cands; cbn; reflexivity.
+  - destruct cands as [|c cands]; [cbn; reflexivity|].
+    cbn [clean_loop]. apply ok_op; [cbn; discriminate|].
+    intros rs (n & o & -> & Hin). cbn [nxt].
+    assert (Hrest : forall x, In x (filter (fun x => negb (Nat.eqb x n)) (c :: cands)) -> ~ In x l).
+    { intros x Hx. apply filter_In in Hx as [Hx _]. apply Hc. exact Hx. }
+    destruct o as [tf|]; [|eapply IH; eauto].
+    destruct (tf_max tf <=? mx)%N; [|eapply IH; eauto].
+    apply ok_op.
+    + cbn. right. split; [exact Hlk|]. exists l. split; [exact Hvw|]. apply Hc. exact Hin.
+    + intros r2 _. cbn [nxt]. rewrite Hfr. eapply IH; eauto.
+Qed.
+
+Definition clean_post (lg' : lgh) (res : mem * apires) : Prop :=
+  incl (fst res) (kn lg') /\ incl (mnames (fst res)) (sn lg') /\ (snd res = ROk \/ snd res = RLockFailure).
+
+Lemma clean_ok : forall attempts m lg,
+  lk lg = false -> incl m (kn lg) -> incl (mnames m) (sn lg) -> fr lg = [] ->
+  ok lg (clean attempts m) clean_post.
+Proof.
+  intros attempts m lg Hlk Hm Hmn Hfr0. unfold clean.
+  assert (Hfail : forall lgx, incl m (kn lgx) -> incl (mnames m) (sn lgx) -> clean_post lgx (m, RLockFailure)).
+  { intros lgx A B. split; [exact A|]. split; [exact B|]. right. reflexivity. }
+  apply ok_op; [exact I|]. intros r _.
+  destruct r; try (cbn [nxt ok]; apply Hfail; assumption).
+  set (lg1 := nxt lg (QCreateExcl PLL) SOk).
+  apply ok_op; [exact I|]. intros c Hc.
+  change (match c with SNames (Some l) => l | _ => [] end) with (lnames c).
+  set (lg2 := nxt lg1 QReadList c).
+  assert (L2 : lk lg2 = true) by reflexivity.
+  assert (K2 : incl m (kn lg2)) by exact Hm.
+  assert (N2 : incl (mnames m) (sn lg2)).
+  { unfold lg2, lg1. cbn. intros x Hx. apply in_or_app. right. apply Hmn. exact Hx. }
+  assert (F2 : fr lg2 = []) by exact Hfr0.
+  destruct (names_eqb (lnames c) (mnames m)) eqn:Eq; cbn [negb].
+  2:{ apply ok_op; [exact L2|]. intros r3 _. cbn [ok]. apply Hfail; [exact K2|exact N2]. }
+  apply list_nat_eqb_eq in Eq.
+  assert (V2 : vw lg2 = Some (mnames m)) by (cbn; rewrite Eq; reflexivity).
+  eapply ok_bind.
+  { apply ok_okp.
+    - apply reload_ok_gen with (lg := lg2); [intros _; exists (mnames m); exact V2|exact K2|exact N2].
+    - apply reload_okp with (l := mnames m); [exact L2|exact V2|reflexivity]. }
+  cbn beta. intros lg3 [m1 st] ((E3 & S3 & R1 & R2 & R3) & Hnm). cbn [fst snd] in *. subst st.
+  destruct S3 as (A1 & A2 & A3 & A4 & A5 & A6).
+  assert (L3 : lk lg3 = true) by (rewrite A1; exact L2).
+  assert (V3 : vw lg3 = Some (mnames m)) by (rewrite A2; exact V2).
+  assert (F3 : fr lg3 = []) by (rewrite A3; exact F2).
+  assert (Hdone : ok lg3 (do! _ := op (QRemove PLL) in Ret (m1, ROk)) clean_post).
+  { apply ok_op; [exact L3|]. intros r9 _. cbn [ok]. split; [exact R1|]. split; [exact R2|]. left. reflexivity. }
+  apply ok_op; [exact I|]. intros d _. cbn [nxt].
+  destruct m1 as [|x m']; [exact Hdone|].
+  eapply ok_bind.
+  { apply clean_loop_ok with (l := mnames m); [exact L3|exact V3|exact F3|].
+    intros n Hn. apply filter_In in Hn as [_ Hn]. apply negb_true_iff in Hn. apply mem_nat_false in Hn.
+    rewrite <- Hnm. exact Hn. }
+  cbn beta. intros lg4 _ ->. exact Hdone.
+Qed.
+
+(* ---------------- call_prog ---------------- *)
 
 Definition lg_init (o : apiop) (m : option mem) : lgh :=
   mkL false None (match m with Some mm => mm | None => [] end)
-      (mnames (match m with Some mm => mm | None => [] end)) [] [] None None
-      (match o with AAdd tx _ => Some tx | _ => None end) None.
+      (mnames (match m with Some mm => mm | None => [] end)) [] [] [] None
+      (match o with AAdd tx _ | AAddMulti tx _ => Some tx | _ => None end) None.
 
 Definition retchk (o : apiop) (r : apires) (d : option nat) : bool :=
   match o with
@@ -766,15 +1063,15 @@ Definition Qcall (o : apiop) (lg : lgh) (res : option mem * apires) : Prop :=
   ret_allowed o (snd res) = true /\ retchk o (snd res) (dn lg) = true.
 
 Lemma call_prog_ok : forall attempts o m,
-  modelled o = true -> ok (lg_init o m) (call_prog attempts o m) (Qcall o).
+  ok (lg_init o m) (call_prog attempts o m) (Qcall o).
 Proof.
-  intros attempts o m Hmod.
+  intros attempts o m.
   assert (Hnone : forall r, ret_allowed o r = true -> retchk o r None = true ->
                    ok (lg_init o m) (Ret (@None mem, r)) (Qcall o)).
   { intros r A B. cbn [ok]. split; [|split; assumption]. cbn. intros mm E. discriminate. }
   assert (Hinc : forall mm, m = Some mm -> incl mm (kn (lg_init o m)) /\ incl (mnames mm) (sn (lg_init o m))).
   { intros mm ->. cbn. split; apply incl_refl. }
-  destruct o; try discriminate Hmod; cbn [call_prog].
+  destruct o; cbn [call_prog].
   - (* Open *)
     unfold wrap. eapply ok_bind.
     + apply open_reload_ok with (lg := lg_init AOpen m). reflexivity.
@@ -786,6 +1083,16 @@ Proof.
     destruct (Hinc mm eq_refl) as [I1 I2].
     unfold wrap. eapply ok_bind.
     + apply add_ok with (kind := KAdd tx) (lg := lg_init (AAdd tx auto) (Some mm)); try reflexivity; assumption.
+    + cbn beta. intros lg' res (R1 & R2 & R3). cbn [ok]. split.
+      { cbn [fst]. intros mm' E. inversion E; subst. split; assumption. }
+      cbn [snd add_res] in *. destruct R3 as [[-> D]|[-> D]]; rewrite D; cbn.
+      * rewrite Nat.eqb_refl. split; reflexivity.
+      * split; reflexivity.
+  - (* AddMulti *)
+    destruct m as [mm|]; [|apply Hnone; reflexivity].
+    destruct (Hinc mm eq_refl) as [I1 I2].
+    unfold wrap. eapply ok_bind.
+    + apply add_multi_ok with (lg := lg_init (AAddMulti tx same) (Some mm)); try reflexivity; assumption.
     + cbn beta. intros lg' res (R1 & R2 & R3). cbn [ok]. split.
       { cbn [fst]. intros mm' E. inversion E; subst. split; assumption. }
       cbn [snd add_res] in *. destruct R3 as [[-> D]|[-> D]]; rewrite D; cbn.
@@ -817,6 +1124,17 @@ Proof.
         cbn. lia.
       * cbn beta. intros lg' res (_ & _ & _ & R1 & R2). cbn [ok]. split; [|split; reflexivity].
         cbn [fst]. intros mm' E. inversion E; subst. split; assumption.
+  - (* Compact *)
+    destruct m as [mm|]; [|apply Hnone; reflexivity].
+    destruct (Hinc mm eq_refl) as [I1 I2].
+    destruct (Nat.ltb last (length mm) && Nat.leb first last) eqn:Erng.
+    + apply andb_true_iff in Erng as [Elt Ele]. apply Nat.ltb_lt in Elt. apply Nat.leb_le in Ele.
+      unfold wrap. eapply ok_bind.
+      * apply compact_range_ok with (lg := lg_init (ACompact first last) (Some mm)); try reflexivity; try assumption.
+        lia.
+      * cbn beta. intros lg' res (_ & _ & _ & R1 & R2). cbn [ok]. split; [|split; reflexivity].
+        cbn [fst]. intros mm' E. inversion E; subst. split; assumption.
+    + cbn [ok]. split; [|split; reflexivity]. cbn [fst]. intros mm' E. inversion E; subst. split; assumption.
   - (* Expire *)
     destruct m as [mm|]; [|apply Hnone; reflexivity].
     destruct (Hinc mm eq_refl) as [I1 I2].
@@ -831,12 +1149,20 @@ Proof.
     destruct m as [mm|]; [|apply Hnone; reflexivity].
     destruct (Hinc mm eq_refl) as [I1 I2].
     unfold wrap. eapply ok_bind.
-    + apply close_ok. exact I2.
+    + apply close_ok; [reflexivity|exact I2].
     + cbn beta. intros lg' _ _. cbn [ok]. split; [|split; reflexivity]. cbn. intros mm' E. discriminate.
   - (* Read *)
     destruct m as [mm|]; [|apply Hnone; reflexivity].
     destruct (Hinc mm eq_refl) as [I1 I2].
     cbn [ok]. split; [|split; reflexivity]. cbn [fst]. intros mm' E. inversion E; subst. split; assumption.
+  - (* Clean *)
+    destruct m as [mm|]; [|apply Hnone; reflexivity].
+    destruct (Hinc mm eq_refl) as [I1 I2].
+    unfold wrap. eapply ok_bind.
+    + apply clean_ok with (lg := lg_init AClean (Some mm)); try reflexivity; assumption.
+    + cbn beta. intros lg' res (R1 & R2 & R3). cbn [ok]. split.
+      { cbn [fst]. intros mm' E. inversion E; subst. split; assumption. }
+      cbn [snd]. destruct R3 as [-> | ->]; split; reflexivity.
 Qed.
 
 (* ------------------------------------------------------------------ *)
@@ -926,7 +1252,7 @@ Record interp (γ : ghost) (s : fs) (h : nat) (lg : lgh) : Prop := {
   i_sn : forall n, In n (sn lg) -> seen γ n;
   i_dd : forall n, In n (dd lg) -> seen γ n /\ ~ In n (listed_fs s);
   i_gn : forall n, In n (gn lg) -> n < f_next_tab s /\ lookup n (f_tabs s) = None;
-  i_fr : forall n, fr lg = Some n -> f_lock s = Some h /\ ~ seen γ n /\ lookup n (f_tabs s) = Some (G γ n);
+  i_fr : forall n, In n (fr lg) -> f_lock s = Some h /\ ~ seen γ n /\ lookup n (f_tabs s) = Some (G γ n);
   i_tm : forall t b, tm lg = Some (t, b) ->
            t < f_next_tmp s /\ (forall h', lookup t (f_tmps s) = Some h' -> h' = h) /\
            (b = true -> lookup t (f_tmps s) <> None) }.
@@ -938,7 +1264,6 @@ Record frame (γ : ghost) (s : fs) (γ' : ghost) (s' : fs) : Prop := {
   fr_seen : forall n, seen γ n -> seen γ' n;
   fr_dead : forall n, seen γ n -> ~ In n (listed_fs s) -> ~ In n (listed_fs s');
   fr_gone : forall n, n < f_next_tab s -> lookup n (f_tabs s) = None -> lookup n (f_tabs s') = None;
-  fr_keep : forall n f, ~ seen γ n -> lookup n (f_tabs s) = Some f -> lookup n (f_tabs s') = Some f;
   fr_ntmp : f_next_tmp s <= f_next_tmp s';
   fr_tmp_old : forall t h, t < f_next_tmp s -> lookup t (f_tmps s') = Some h -> lookup t (f_tmps s) = Some h }.
 
@@ -947,15 +1272,17 @@ Arguments g_tmps [γ s] _ t h _.
 Arguments i_vw [γ s h lg] _ l _.
 Arguments i_fr [γ s h lg] _ n _.
 Arguments i_tm [γ s h lg] _ t b _.
-Arguments fr_keep [γ s γ' s'] _ n f _ _.
 Arguments fr_tmp_old [γ s γ' s'] _ t h _ _.
 
 (* what a step guarantees to a handle that holds the list lock / owns temp files *)
+(* (a table that was never listed is only unlinked by the holder of the list lock: Clean, or the
+   owner taking its fresh table back) *)
 Definition keepsL (h : nat) (γ : ghost) (s : fs) (γ' : ghost) (s' : fs) : Prop :=
-  f_lock s = Some h -> f_lock s' = Some h /\ listed_fs s' = listed_fs s /\ (forall n, seen γ' n -> seen γ n).
+  f_lock s = Some h -> f_lock s' = Some h /\ listed_fs s' = listed_fs s /\ (forall n, seen γ' n -> seen γ n) /\
+                       (forall n f, ~ seen γ n -> lookup n (f_tabs s) = Some f -> lookup n (f_tabs s') = Some f).
 Definition keepsT (h : nat) (s s' : fs) : Prop :=
   forall t, lookup t (f_tmps s) = Some h -> lookup t (f_tmps s') = Some h.
-Definition nolock (lg : lgh) : Prop := lk lg = false /\ vw lg = None /\ fr lg = None.
+Definition nolock (lg : lgh) : Prop := lk lg = false /\ vw lg = None /\ fr lg = [].
 
 Lemma interp_stable : forall γ s γ' s' h lg,
   GI γ s -> frame γ s γ' s' ->
@@ -970,10 +1297,10 @@ Proof.
   - intros n Hin. auto.
   - intros n Hin. destruct (i_dd0 n Hin) as [A B]. split; auto.
   - intros n Hin. destruct (i_gn0 n Hin) as [A B]. split; [lia|auto].
-  - intros n E. destruct HL as [HL|(_ & _ & A)]; [|congruence].
-    destruct (i_fr0 n E) as (A & B & C). destruct (HL A) as (D & _ & F).
+  - intros n E. destruct HL as [HL|(_ & _ & A)]; [|rewrite A in E; destruct E].
+    destruct (i_fr0 n E) as (A & B & C). destruct (HL A) as (D & _ & F & K).
     split; [exact D|]. split; [intro X; apply B; apply F; exact X|].
-    rewrite fr_G0; [apply fr_keep0; assumption|].
+    rewrite fr_G0; [apply K; assumption|].
     apply (g_tabs HG) in C. apply C.
   - intros t b E. destruct HT as [HT|A]; [|congruence].
     destruct (i_tm0 t b E) as (A & B & C). split; [lia|]. split.
@@ -1013,7 +1340,8 @@ Proof. intros γ s s' (A & _). unfold txs_of, listed_fs. rewrite A. reflexivity.
 
 Lemma keepsL_dateq : forall h γ s s', dateq s s' -> (f_lock s = Some h -> f_lock s' = Some h) -> keepsL h γ s γ s'.
 Proof.
-  intros h γ s s' (A & _) H E. split; [auto|]. split; [unfold listed_fs; rewrite A; reflexivity|auto].
+  intros h γ s s' (A & B & _) H E. split; [auto|]. split; [unfold listed_fs; rewrite A; reflexivity|].
+  split; [auto|]. intros n f _ X. rewrite B. exact X.
 Qed.
 
 Lemma keepsT_dateq : forall h s s', dateq s s' -> keepsT h s s'.
@@ -1073,37 +1401,67 @@ Proof.
   - rewrite Hc, app_nil_r. apply txs_dateq. assumption.
 Qed.
 
-(* unlinking a table that is dead *)
+(* unlinking a table that the list does not name: a dead one, or, by the holder
+   of the list lock, any (Clean; the owner taking back its fresh table) *)
 Lemma deltab_facts : forall γ s n s',
-  GI γ s -> seen γ n -> ~ In n (listed_fs s) ->
+  GI γ s -> ~ In n (listed_fs s) ->
   f_list s' = f_list s -> f_tabs s' = del n (f_tabs s) -> f_tmps s' = f_tmps s ->
   f_next_tab s' = f_next_tab s -> f_next_tmp s' = f_next_tmp s ->
   GI γ s' /\ frame γ s γ s'.
 Proof.
-  intros γ s n s' HG Hs Hn A B C D E. destruct HG. split.
+  intros γ s n s' HG Hn A B C D E. destruct HG. split.
   - constructor; unfold listed_fs in *; rewrite ?A, ?B, ?C, ?D, ?E; auto.
     + intros x f Hx. rewrite lookup_del in Hx. destruct (Nat.eqb x n); [discriminate|auto].
     + intros x Hx. rewrite lookup_del. destruct (Nat.eqb_spec x n); [subst; contradiction|auto].
   - constructor; unfold listed_fs in *; rewrite ?A, ?B, ?C, ?D, ?E; auto.
-    + intros x _ Hx. rewrite lookup_del. destruct (Nat.eqb x n); auto.
-    + intros x f Hx Hl. rewrite lookup_del. destruct (Nat.eqb_spec x n); [subst; contradiction|auto].
+    intros x _ Hx. rewrite lookup_del. destruct (Nat.eqb x n); auto.
+Qed.
+
+Definition same_but_fr (a b : lgh) : Prop :=
+  lk b = lk a /\ vw b = vw a /\ kn b = kn a /\ sn b = sn a /\ dd b = dd a /\ gn b = gn a /\ tm b = tm a.
+
+Lemma same_but_fr_refl : forall a, same_but_fr a a.
+Proof. intro a. repeat split. Qed.
+
+Lemma nxt_rmtab : forall lg n rs,
+  same_but_fr lg (nxt lg (QRemove (PT n)) rs) /\ fr (nxt lg (QRemove (PT n)) rs) = rmv n (fr lg).
+Proof.
+  intros lg n rs. cbn [nxt]. destruct (fr lg) eqn:E.
+  - split; [apply same_but_fr_refl|]. rewrite E. reflexivity.
+  - split; [repeat split|reflexivity].
+Qed.
+
+Lemma interp_forget_fr : forall γ s h lg lg',
+  interp γ s h lg -> same_but_fr lg lg' -> incl (fr lg') (fr lg) -> interp γ s h lg'.
+Proof.
+  intros γ s h lg lg' HI (A & B & C & D & E & F & T) Hfr. destruct HI.
+  constructor; rewrite ?A, ?B, ?C, ?D, ?E, ?F, ?T; auto.
 Qed.
 
 Lemma sp_deltab : forall h γ s lg q n s' rs,
-  GI γ s -> interp γ s h lg -> In n (dd lg) -> nxt lg q rs = lg -> possible lg q rs ->
+  GI γ s -> interp γ s h lg -> ~ In n (listed_fs s) -> (seen γ n \/ f_lock s = Some h) ->
+  same_but_fr lg (nxt lg q rs) -> (forall x, In x (fr (nxt lg q rs)) -> In x (fr lg) /\ x <> n) ->
+  possible lg q rs ->
   is_commit q = false -> (forall x, removed q rs = Some x -> x = n) ->
   f_list s' = f_list s -> f_lock s' = f_lock s -> f_tabs s' = del n (f_tabs s) -> f_tmps s' = f_tmps s ->
   f_next_tab s' = f_next_tab s -> f_next_tmp s' = f_next_tmp s ->
   step_post h γ s lg q γ s' rs FOk.
 Proof.
-  intros h γ s lg q n s' rs HG HI Hn Hnx Hp Hc Hrm A L B C D E.
-  destruct (i_dd HI n Hn) as [Hs Hnl].
-  destruct (@deltab_facts γ s n s' HG Hs Hnl A B C D E) as [HG' HF].
-  assert (KL : forall h', keepsL h' γ s γ s').
-  { intros h' X. split; [congruence|]. split; [unfold listed_fs; rewrite A; reflexivity|auto]. }
+  intros h γ s lg q n s' rs HG HI Hnl Hwho Hsame Hfr Hp Hc Hrm A L B C D E.
+  destruct (@deltab_facts γ s n s' HG Hnl A B C D E) as [HG' HF].
+  assert (KL : forall h', h' <> h -> keepsL h' γ s γ s').
+  { intros h' Hne X. destruct Hwho as [Hs|Hlock]; [|congruence].
+    split; [congruence|]. split; [unfold listed_fs; rewrite A; reflexivity|]. split; [auto|].
+    intros x f Hx Hl. rewrite B, lookup_del. destruct (Nat.eqb_spec x n); [subst; contradiction|exact Hl]. }
   assert (KT : forall h', keepsT h' s s') by (intros h' t X; rewrite C; exact X).
   constructor; auto.
-  - rewrite Hnx. apply interp_stable with (γ := γ) (s := s); auto.
+  - destruct Hsame as (S1 & S2 & S3 & S4 & S5 & S6 & S7). destruct HI.
+    constructor; rewrite ?S1, ?S2, ?S3, ?S4, ?S5, ?S6, ?S7; unfold listed_fs in *; rewrite ?A, ?L, ?D, ?E, ?C; auto.
+    + intros x Hx. destruct (i_gn0 x Hx) as [P Q]. split; [exact P|]. rewrite B, lookup_del, Q.
+      destruct (Nat.eqb x n); reflexivity.
+    + intros x Hx. destruct (Hfr x Hx) as [P Q]. destruct (i_fr0 x P) as (X & Y & Z).
+      split; [exact X|]. split; [exact Y|]. rewrite B, lookup_del.
+      destruct (Nat.eqb_spec x n); [contradiction|exact Z].
   - intros x Hx _. apply Hrm in Hx. subst x. exact Hnl.
   - rewrite Hc, app_nil_r. unfold txs_of, listed_fs. rewrite A. reflexivity.
 Qed.
@@ -1114,7 +1472,7 @@ Lemma interp_weaken : forall γ s h lg lg',
   interp γ s h lg ->
   (lk lg' = true -> lk lg = true) -> (forall l, vw lg' = Some l -> vw lg = Some l) ->
   incl (kn lg') (kn lg) -> incl (sn lg') (sn lg) -> incl (dd lg') (dd lg) -> incl (gn lg') (gn lg) ->
-  (forall n, fr lg' = Some n -> fr lg = Some n) ->
+  incl (fr lg') (fr lg) ->
   (forall t b, tm lg' = Some (t, b) -> exists b', tm lg = Some (t, b') /\ (b = true -> b' = true)) ->
   interp γ s h lg'.
 Proof.
@@ -1142,7 +1500,6 @@ Proof.
   { constructor; unfold s', γ', listed_fs; cbn [f_next_tab f_tabs f_tmps f_next_tmp G seen f_list]; auto.
     - intros x Hx. destruct (Nat.eqb_spec x n); [unfold n in *; lia|reflexivity].
     - intros x Hx E. rewrite lookup_app, E. cbn. destruct (Nat.eqb_spec x n); [unfold n in *; lia|reflexivity].
-    - intros x g _ E. rewrite lookup_app, E. reflexivity.
     - intros t' h' _ E. rewrite lookup_del in E. destruct (Nat.eqb t' t); [discriminate|exact E]. }
   assert (HG' : GI γ' s').
   { destruct HG. unfold listed_fs in *. constructor; unfold s', γ', listed_fs; cbn [f_next_tab f_tabs f_tmps f_next_tmp G seen f_list]; auto.
@@ -1157,11 +1514,14 @@ Proof.
     - intros x Hx. apply Hlt in Hx. lia.
     - intros t' h' E. rewrite lookup_del in E. destruct (Nat.eqb t' t); [discriminate|eauto]. }
   assert (KL : forall h', keepsL h' γ s γ' s').
-  { intros h' E. cbn. auto. }
+  { intros h' E. cbn. split; [exact E|]. split; [reflexivity|]. split; [auto|].
+    intros x g _ X. rewrite lookup_app, X. reflexivity. }
   constructor; auto.
   - intros h' Hne t' E. cbn [s' f_tmps]. rewrite lookup_del.
     destruct (Nat.eqb_spec t' t); [|exact E]. subst t'. rewrite Hlook in E. congruence.
-  - cbn. exists n, f. repeat split; auto. intro X. apply (i_sn HI) in X. apply Hlt in X. lia.
+  - cbn. exists n, f. repeat split; auto.
+    + intro X. apply (i_sn HI) in X. apply Hlt in X. lia.
+    + intro X. destruct (i_fr HI _ X) as (_ & _ & Y). rewrite Hnone in Y. discriminate Y.
   - cbn [nxt].
     assert (HW : interp γ' s' h (mkL (lk lg) (vw lg) (kn lg) (sn lg) (dd lg) (gn lg) (fr lg) None (pd lg) (dn lg))).
     { apply interp_stable with (γ := γ) (s := s); auto.
@@ -1169,7 +1529,7 @@ Proof.
     destruct HW. cbn [lk vw kn sn dd gn fr tm] in *.
     constructor; cbn [lk vw kn sn dd gn fr tm]; auto.
     + intros x g [E|Hin]; [|auto]. inversion E; subst. cbn. split; [lia|]. rewrite Nat.eqb_refl. reflexivity.
-    + intros x E. inversion E; subst x. split; [cbn; apply (i_lk HI); exact Hlk|].
+    + intros x [<-|Hx]; [|auto]. split; [cbn; apply (i_lk HI); exact Hlk|].
       split; [cbn; intro X; apply Hlt in X; lia|].
       cbn. rewrite lookup_app, Hnone. cbn. rewrite !Nat.eqb_refl. reflexivity.
     + intros t' b E. inversion E; subst. cbn. split; [apply (i_tm HI _ _ Htm)|].
@@ -1208,22 +1568,35 @@ Proof.
     + apply IH; [assumption|]. intro H. apply Hn. right. exact H.
 Qed.
 
+Lemma nodup_insert_list : forall {A} (news a c : list A),
+  NoDup (a ++ c) -> NoDup news -> (forall x, In x news -> ~ In x (a ++ c)) -> NoDup (a ++ news ++ c).
+Proof.
+  induction news as [|x news IH]; intros a c Hac Hn Hd; [exact Hac|].
+  inversion Hn; subst. cbn [app]. apply nodup_insert.
+  - apply IH; [exact Hac|assumption|]. intros y Hy. apply Hd. right. exact Hy.
+  - intro X. apply in_app_or in X as [X|X].
+    + apply (Hd x (or_introl eq_refl)). apply in_or_app. left. exact X.
+    + apply in_app_or in X as [X|X]; [contradiction|].
+      apply (Hd x (or_introl eq_refl)). apply in_or_app. right. exact X.
+Qed.
+
 Lemma commit_sem : forall h γ s lg names,
-  GI γ s -> interp γ s h lg -> commit_add lg names \/ commit_cmp lg names ->
-  exists pre run post n,
-    listed_fs s = pre ++ run ++ post /\ names = pre ++ [n] ++ post /\ f_lock s = Some h /\
-    fr lg = Some n /\ vw lg = Some (listed_fs s) /\
+  GI γ s -> interp γ s h lg -> allowed lg (QCommitList names) ->
+  exists pre run news post,
+    listed_fs s = pre ++ run ++ post /\ names = pre ++ news ++ post /\ f_lock s = Some h /\
+    NoDup news /\ (forall x, In x news <-> In x (fr lg)) /\ vw lg = Some (listed_fs s) /\
     ranges_increasing None (map (fun x => info (G γ x)) names) = true /\
     flat_map (fun x => tf_txs (G γ x)) names =
       txs_of γ s ++ (match pd lg with Some tx => [tx] | None => [] end).
 Proof.
-  intros h γ s lg names HG HI [H|H].
+  intros h γ s lg names HG HI [H|[H|H]].
   - destruct H as (tx & m & n & f & Hpd & Hvw & Hm & Hfr & Hnf & Fmin & Fmax & Ftx & ->).
     destruct (i_vw HI _ Hvw) as [Hlock Hl].
     assert (HGm : forall x g, In (x, g) m -> G γ x = g) by (intros x g Hx; apply (i_kn HI); apply Hm; exact Hx).
     assert (HGn : G γ n = f) by (apply (i_kn HI); exact Hnf).
-    exists (mnames m), [], [], n. cbn [app]. rewrite app_nil_r.
-    split; [exact Hl|]. split; [reflexivity|]. split; [exact Hlock|]. split; [exact Hfr|].
+    exists (mnames m), [], [n], []. cbn [app]. rewrite app_nil_r.
+    split; [exact Hl|]. split; [reflexivity|]. split; [exact Hlock|].
+    split; [repeat constructor; intros []|]. split; [rewrite Hfr; reflexivity|].
     split; [rewrite Hl; exact Hvw|]. split.
     + rewrite map_app, ri_app. apply andb_true_iff. split.
       * rewrite <- Hl. apply (g_ranges HG).
@@ -1238,8 +1611,9 @@ Proof.
     destruct (i_vw HI _ Hvw) as [Hlock Hl].
     assert (HGm : forall x g, In (x, g) sub -> G γ x = g) by (intros x g Hx; apply (i_kn HI); apply Hsub; exact Hx).
     assert (HGn : G γ n = f) by (apply (i_kn HI); exact Hnf).
-    exists pre, (mnames sub), post, n.
-    split; [exact Hl|]. split; [reflexivity|]. split; [exact Hlock|]. split; [exact Hfr|].
+    exists pre, (mnames sub), [n], post.
+    split; [exact Hl|]. split; [reflexivity|]. split; [exact Hlock|].
+    split; [repeat constructor; intros []|]. split; [rewrite Hfr; reflexivity|].
     split; [rewrite Hl; exact Hvw|]. split.
     + pose proof (g_ranges HG) as Hr. rewrite Hl in Hr. rewrite !map_app in Hr. rewrite !map_app.
       destruct sub as [|[a g] sub']; [congruence|].
@@ -1253,44 +1627,73 @@ Proof.
     + unfold txs_of. rewrite Hl, Hpd, app_nil_r. rewrite !flat_map_app. f_equal. f_equal.
       cbn [flat_map]. rewrite app_nil_r, HGn, Ftx.
       rewrite !flat_map_concat_map. f_equal. symmetry. apply (map_G_mem γ (@tf_txs) sub HGm).
+  - destruct H as (tx & m & n1 & f1 & n2 & f2 & Hpd & Hvw & Hm & Hfr & Hne & Hnf1 & Hnf2 &
+                   Fmin1 & Fmax1 & Ftx1 & Fmin2 & Fmax2 & Ftx2 & ->).
+    destruct (i_vw HI _ Hvw) as [Hlock Hl].
+    assert (HGm : forall x g, In (x, g) m -> G γ x = g) by (intros x g Hx; apply (i_kn HI); apply Hm; exact Hx).
+    assert (HGn1 : G γ n1 = f1) by (apply (i_kn HI); exact Hnf1).
+    assert (HGn2 : G γ n2 = f2) by (apply (i_kn HI); exact Hnf2).
+    exists (mnames m), [], [n1; n2], []. cbn [app]. rewrite app_nil_r.
+    split; [exact Hl|]. split; [reflexivity|]. split; [exact Hlock|].
+    split.
+    { constructor; [intros [X|[]]; congruence|]. constructor; [intros []|constructor]. }
+    split.
+    { intro x. rewrite Hfr. cbn [In]. tauto. }
+    split; [rewrite Hl; exact Hvw|]. split.
+    + rewrite map_app, ri_app. apply andb_true_iff. split.
+      * rewrite <- Hl. apply (g_ranges HG).
+      * cbn [map]. rewrite HGn1, HGn2. rewrite (map_G_mem γ info m HGm).
+        destruct m as [|a m'].
+        -- cbn. rewrite Fmin1, Fmax1, Fmin2, Fmax2. rewrite !N.leb_refl. cbn [andb]. rewrite andb_true_r.
+           apply N.ltb_lt. lia.
+        -- rewrite lastmax_mem by discriminate. cbn [ranges_increasing info ti_min ti_max].
+           rewrite Fmin1, Fmax1, Fmin2, Fmax2. cbn [next_index]. rewrite !N.leb_refl. cbn [andb]. rewrite andb_true_r.
+           apply andb_true_iff. split; apply N.ltb_lt; lia.
+    + rewrite flat_map_app. unfold txs_of. rewrite Hl. f_equal. cbn. rewrite HGn1, HGn2, Ftx1, Ftx2, Hpd. reflexivity.
 Qed.
 
 Lemma sp_commit_case : forall h γ s lg names,
-  GI γ s -> interp γ s h lg -> commit_add lg names \/ commit_cmp lg names ->
+  GI γ s -> interp γ s h lg -> allowed lg (QCommitList names) ->
   f_lock s = Some h /\
   exists γ', step_post h γ s lg (QCommitList names) γ'
     {| f_list := Some names; f_lock := None; f_tabs := f_tabs s; f_tlocks := f_tlocks s;
        f_tmps := f_tmps s; f_next_tab := f_next_tab s; f_next_tmp := f_next_tmp s |} SOk FOk.
 Proof.
   intros h γ s lg names HG HI Hal.
-  destruct (commit_sem HG HI Hal) as (pre & run & post & n & Hl & Hnames & Hlock & Hfr & Hvw & Hri & Htx).
+  destruct (commit_sem HG HI Hal) as (pre & run & news & post & Hl & Hnames & Hlock & Hndn & Hnews & Hvw & Hri & Htx).
   split; [exact Hlock|].
-  destruct (i_fr HI _ Hfr) as (_ & Hns & Hnl).
+  assert (Hfrx : forall x, In x news -> ~ seen γ x /\ lookup x (f_tabs s) = Some (G γ x)).
+  { intros x Hx. apply Hnews in Hx. destruct (i_fr HI _ Hx) as (_ & A & B). split; assumption. }
   set (s' := {| f_list := Some names; f_lock := None; f_tabs := f_tabs s; f_tlocks := f_tlocks s;
        f_tmps := f_tmps s; f_next_tab := f_next_tab s; f_next_tmp := f_next_tmp s |}).
-  set (γ' := mkG (G γ) (fun x => seen γ x \/ x = n)).
+  set (γ' := mkG (G γ) (fun x => seen γ x \/ In x news)).
   exists γ'.
-  assert (Hsub : forall x, In x names -> In x (listed_fs s) \/ x = n).
+  assert (Hsub : forall x, In x names -> In x (listed_fs s) \/ In x news).
   { intros x Hx. rewrite Hnames in Hx. rewrite Hl.
     apply in_app_or in Hx as [Hx|Hx]; [left; apply in_or_app; left; exact Hx|].
-    apply in_app_or in Hx as [[<-|[]]|Hx]; [right; reflexivity|].
+    apply in_app_or in Hx as [Hx|Hx]; [right; exact Hx|].
     left. apply in_or_app. right. apply in_or_app. right. exact Hx. }
-  assert (Hnin : ~ In n (listed_fs s)) by (intro X; apply Hns; apply (g_seen HG); exact X).
+  assert (Hnin : forall x, In x news -> ~ In x (listed_fs s)).
+  { intros x Hx X. apply (proj1 (Hfrx x Hx)). apply (g_seen HG). exact X. }
   assert (HG' : GI γ' s').
   { constructor; unfold s', γ', listed_fs; cbn [f_list f_tabs f_tmps f_next_tab f_next_tmp G seen].
     - apply (g_tabs HG).
-    - rewrite Hnames. apply nodup_insert.
+    - rewrite Hnames. apply nodup_insert_list.
       + apply nodup_mid_remove with (b := run). rewrite <- Hl. apply (g_nodup HG).
-      + intro X. apply Hnin. rewrite Hl. apply in_app_or in X as [X|X]; apply in_or_app; [left; exact X|].
+      + exact Hndn.
+      + intros x Hx X. apply (Hnin x Hx). rewrite Hl. apply in_app_or in X as [X|X]; apply in_or_app; [left; exact X|].
         right. apply in_or_app. right. exact X.
-    - intros x Hx. destruct (Hsub x Hx) as [X| ->]; [apply (g_exist HG); exact X|]. rewrite Hnl. discriminate.
+    - intros x Hx. destruct (Hsub x Hx) as [X|X]; [apply (g_exist HG); exact X|].
+      rewrite (proj2 (Hfrx x X)). discriminate.
     - exact Hri.
-    - intros x Hx. destruct (Hsub x Hx) as [X| ->]; [left; apply (g_seen HG); exact X|right; reflexivity].
-    - intros x [X| ->]; [apply (g_seen_lt HG); exact X|]. apply (g_tabs HG) in Hnl. apply Hnl.
+    - intros x Hx. destruct (Hsub x Hx) as [X|X]; [left; apply (g_seen HG); exact X|right; exact X].
+    - intros x [X|X]; [apply (g_seen_lt HG); exact X|].
+      pose proof (proj2 (Hfrx x X)) as Y. apply (g_tabs HG) in Y. apply Y.
     - apply (g_tmps HG). }
   assert (HF : frame γ s γ' s').
   { constructor; unfold s', γ', listed_fs; cbn [f_list f_tabs f_tmps f_next_tab f_next_tmp G seen]; auto.
-    intros x Hx Hnx X. destruct (Hsub x X) as [Y| ->]; [apply Hnx; exact Y|contradiction]. }
+    intros x Hx Hnx X. destruct (Hsub x X) as [Y|Y]; [apply Hnx; exact Y|].
+    apply (proj1 (Hfrx x Y)). exact Hx. }
   constructor.
   - exact HG'.
   - exact HF.
@@ -1298,12 +1701,13 @@ Proof.
   - intros h' Hne t E. exact E.
   - cbn. exact I.
   - cbn [nxt].
-    assert (HW : interp γ' s' h (mkL false None (kn lg) (sn lg) (dd lg) (gn lg) None (tm lg) (pd lg) (dn lg))).
+    assert (HW : interp γ' s' h (mkL false None (kn lg) (sn lg) (dd lg) (gn lg) [] (tm lg) (pd lg) (dn lg))).
     { apply interp_stable with (γ := γ) (s := s); auto.
       - right. repeat split.
       - left. intros t E. exact E.
       - apply interp_weaken with (lg := lg); cbn; auto using incl_refl; try discriminate.
-        intros t b E. exists b. auto. }
+        + intros x [].
+        + intros t b E. exists b. auto. }
     destruct HW. cbn [lk vw kn sn dd gn fr tm] in *.
     constructor; cbn [lk vw kn sn dd gn fr tm]; auto.
     intros x Hx. apply in_app_or in Hx as [Hx|Hx]; [|auto].
@@ -1329,7 +1733,7 @@ Lemma req_step : forall so c h q γ s lg s' rs fr,
   exists γ', step_post h γ s lg q γ' s' rs fr.
 Proof.
   intros so c h q γ s lg s' rs fr HG HI Hal H.
-  destruct q as [p| |n|t| |t mn mx txs|names|p|cands| ]; cbn [apply_req] in H.
+  destruct q as [p| |n|t| |t mn mx txs|names|p|cands|cands| ]; cbn [apply_req] in H.
   - (* QCreateExcl *)
     destruct p as [| |n|n|t| |]; try (inversion H; subst; same_tac γ HG HI).
     + destruct (f_lock s) as [o|] eqn:El; inversion H; subst; [same_tac γ HG HI|].
@@ -1350,8 +1754,9 @@ Proof.
       * cbn [nxt]. apply interp_dateq with (s := s); [exact HG|repeat split|auto|exact HI].
   - (* QReadList *)
     inversion H; subst. exists γ. apply sp_same; [exact HG|apply dateq_refl|auto| | |rm_trivial|reflexivity].
-    + cbn. split; [eexists; reflexivity|]. split; [apply (g_nodup HG)|].
-      intros x Hx X. destruct (i_gn HI x Hx) as [_ E]. apply (g_exist HG) in X. contradiction.
+    + cbn. split; [eexists; reflexivity|]. split; [apply (g_nodup HG)|]. split.
+      * intros x Hx X. destruct (i_gn HI x Hx) as [_ E]. apply (g_exist HG) in X. contradiction.
+      * intros l E. apply (i_vw HI l E).
     + cbn [nxt]. change (lnames (SNames (f_list s'))) with (listed_fs s').
       destruct HI. constructor; cbn [lk vw kn sn dd gn fr tm]; auto.
       * intros l E. destruct (lk lg) eqn:Elk; [|auto]. inversion E; subst. split; auto.
@@ -1432,15 +1837,22 @@ Proof.
         -- apply frame_dateq; exact Hd.
         -- right. repeat split.
         -- left. apply keepsT_dateq. exact Hd.
-        -- apply interp_weaken with (lg := lg); cbn; auto using incl_refl; try discriminate.
+        -- apply interp_weaken with (lg := lg); cbn; auto using incl_refl; try discriminate; [intros ? []|].
            intros t b E. exists b. auto.
       * rm_trivial.
       * discriminate.
       * cbn [is_commit]. rewrite app_nil_r. apply txs_dateq. exact Hd.
     + (* a table *)
-      cbn in Hal. destruct (lookup n (f_tabs s)) eqn:El; inversion H; subst; [|same_tac γ HG HI].
-      exists γ. eapply sp_deltab with (n := n); eauto; try reflexivity.
-      intros x E. cbn in E. congruence.
+      cbn in Hal. destruct (nxt_rmtab lg n rs) as [Hsame Hfrn].
+      destruct (lookup n (f_tabs s)) eqn:El; inversion H; subst.
+      2:{ exists γ. apply sp_same; [exact HG|apply dateq_refl|auto|exact I| |rm_trivial|reflexivity].
+          eapply interp_forget_fr; [exact HI|exact Hsame|]. rewrite Hfrn. intros x Hx. apply in_rmv in Hx. apply Hx. }
+      exists γ. eapply sp_deltab with (n := n); try reflexivity; [exact HG|exact HI| | |exact Hsame| |].
+      * destruct Hal as [Hd|(Hlk & l & Hvw & Hnl)]; [apply (i_dd HI n Hd)|].
+        destruct (i_vw HI l Hvw) as [_ <-]. exact Hnl.
+      * destruct Hal as [Hd|(Hlk & _)]; [left; apply (i_dd HI n Hd)|right; apply (i_lk HI Hlk)].
+      * intros x Hx. rewrite Hfrn in Hx. apply in_rmv in Hx. exact Hx.
+      * intros x E. cbn in E. congruence.
     + (* a table lock *)
       destruct (lookup n (f_tlocks s)) eqn:El; inversion H; subst; [|same_tac γ HG HI].
       exists γ. apply sp_same; [exact HG| | | | |rm_trivial|reflexivity].
@@ -1491,8 +1903,22 @@ Proof.
       unfold n. destruct c as [c0|]; [|assumption].
       destruct (mem_nat c0 cands) eqn:E; [apply mem_nat_In; exact E|assumption]. }
     destruct (lookup n (f_tabs s)) eqn:El; inversion H; subst; [|same_tac γ HG HI].
-    exists γ. eapply sp_deltab with (n := n); eauto; try reflexivity.
-    intros x E. cbn in E. congruence.
+    destruct (i_dd HI n (Hinc n Hn)) as [Hsn Hnl].
+    exists γ. eapply sp_deltab with (n := n); try reflexivity;
+      [exact HG|exact HI|exact Hnl|left; exact Hsn|apply same_but_fr_refl| |].
+    + cbn [nxt]. intros x Hx. split; [exact Hx|]. intros ->. apply (i_fr HI n Hx). exact Hsn.
+    + intros x E. cbn in E. congruence.
+  - (* QOpenOne *)
+    cbn in Hal.
+    set (n := match c with Some c0 => if mem_nat c0 cands then c0 else hd 0 cands | None => hd 0 cands end) in *.
+    assert (Hn : In n cands).
+    { assert (In (hd 0 cands) cands) by (destruct cands; [congruence|left; reflexivity]).
+      unfold n. destruct c as [c0|]; [|assumption].
+      destruct (mem_nat c0 cands) eqn:E; [apply mem_nat_In; exact E|assumption]. }
+    destruct (lookup n (f_tabs s)); inversion H; subst;
+      (exists γ; apply sp_same;
+       [ exact HG | apply dateq_refl | auto | cbn; eexists; eexists; split; [reflexivity|exact Hn]
+       | cbn [nxt]; exact HI | rm_trivial | reflexivity ]).
   - (* QReadDir *)
     inversion H; subst. same_tac γ HG HI.
 Qed.
@@ -1625,7 +2051,7 @@ Proof.
   - destruct rs; auto.
   - destruct rs; auto.
   - destruct rs; auto.
-  - destruct p; auto.
+  - destruct p; auto. destruct (fr lg); auto.
 Qed.
 
 (* ------------------------------------------------------------------ *)
@@ -1633,7 +2059,6 @@ Qed.
 (* ------------------------------------------------------------------ *)
 
 Definition hinv (γ : ghost) (s : fs) (st : c04_state) (i : nat) (hd : handle) : Prop :=
-  forallb modelled (h_script hd) = true /\
   (forall m, h_mem hd = Some m -> memok γ m) /\
   match h_pc hd with
   | HDead => True
@@ -1664,7 +2089,7 @@ Lemma hinv_other : forall γ s st γ' s' st' i hd,
   assoc i (c4_pending st') = assoc i (c4_pending st) -> assoc i (c4_done st') = assoc i (c4_done st) ->
   hinv γ s st i hd -> hinv γ' s' st' i hd.
 Proof.
-  intros γ s st γ' s' st' i hd HG HF KL KT Ep Ed (A & B & C). split; [exact A|]. split.
+  intros γ s st γ' s' st' i hd HG HF KL KT Ep Ed (B & C). split.
   - intros m E. eapply memok_stable; eauto.
   - destruct (h_pc hd); auto.
     + rewrite Ep, Ed. exact C.
@@ -1695,13 +2120,12 @@ Lemma finish_inv : forall γ fs st hs h o m r lg script,
   GI γ fs -> c4_commits st = txs_of γ fs ->
   (forall i hd, i <> h -> nth_error hs i = Some hd -> hinv γ fs st i hd) ->
   interp γ fs h lg -> Qcall o lg (m, r) -> assoc h (c4_done st) = dn lg ->
-  forallb modelled script = true ->
   WInv γ {| w_fs := fs; w_handles := set_handle h {| h_mem := m; h_pc := HIdle; h_script := script |} hs |}
        (st_ret h st) /\
   (forall rest, c04_loop false st (finish_events h o m r ++ rest) = c04_loop false (st_ret h st) rest) /\
   (forall cur rest, c05_loop cur (finish_events h o m r ++ rest) = c05_loop cur rest).
 Proof.
-  intros γ fs st hs h o m r lg script HG Hc Ho HI (Q1 & Q2 & Q3) Hd Hs. cbn [fst snd] in *.
+  intros γ fs st hs h o m r lg script HG Hc Ho HI (Q1 & Q2 & Q3) Hd. cbn [fst snd] in *.
   split; [|split].
   - apply winv_set; auto.
     + intros i hd Hne E. apply hinv_other with (γ := γ) (s := fs) (st := st); auto.
@@ -1710,7 +2134,7 @@ Proof.
       * apply keepsT_refl.
       * cbn. apply assoc_unassoc_neq. exact Hne.
       * cbn. apply assoc_unassoc_neq. exact Hne.
-    + split; [exact Hs|]. split.
+    + split.
       * cbn [h_mem]. intros mm E. destruct (Q1 mm E) as [A B]. intros n f Hin. split.
         -- apply (i_kn HI). apply A. exact Hin.
         -- apply (i_sn HI). apply B. unfold mnames. apply in_map_iff. exists (n, f). split; [reflexivity|exact Hin].
@@ -1731,7 +2155,7 @@ Proof.
     apply in_map_iff in Hin as [[n' f] [E Hin]]. cbn in E. subst n'. apply (Hm mm eq_refl n f Hin).
   - intros n [].
   - intros n [].
-  - discriminate.
+  - intros n [].
   - discriminate.
 Qed.
 
@@ -1767,19 +2191,18 @@ Proof.
               (forall rest, c05_loop (snapshot_of (w_fs w)) (evs ++ rest) = c05_loop (snapshot_of (w_fs w')) rest)).
   { intro E. inversion E; subst. exists γ, st. split; [split; [exact HG|split; assumption]|]. split; reflexivity. }
   destruct (nth_error (w_handles w) h) as [hd|] eqn:En; [|apply Hnop; congruence].
-  destruct (Hh h hd En) as (Hscr & Hmem & Hpc).
+  destruct (Hh h hd En) as (Hmem & Hpc).
   assert (Hothers : forall i hd', i <> h -> nth_error (w_handles w) i = Some hd' -> hinv γ (w_fs w) st i hd')
     by (intros i hd' _ E; apply Hh; exact E).
   destruct (h_pc hd) as [|o p|] eqn:Epc; [| |apply Hnop; congruence].
   - (* a call starts *)
     destruct (h_script hd) as [|o rest] eqn:Es; [apply Hnop; congruence|].
-    cbn [forallb] in Hscr. apply andb_true_iff in Hscr as [Hmod Hrest].
-    pose proof (@call_prog_ok att o (h_mem hd) Hmod) as Hok.
+    pose proof (@call_prog_ok att o (h_mem hd)) as Hok.
     pose proof (@interp_init γ (w_fs w) h o (h_mem hd) HG Hmem) as HI.
     destruct Hpc as [Hp0 Hd0].
     set (st1 := st_call h o st).
     assert (Hp1 : assoc h (c4_pending st1) = pd (lg_init o (h_mem hd))).
-    { unfold st1. destruct o; cbn; try exact Hp0; try discriminate Hmod. rewrite Nat.eqb_refl. reflexivity. }
+    { unfold st1. destruct o; cbn; try exact Hp0; rewrite Nat.eqb_refl; reflexivity. }
     assert (Hd1 : assoc h (c4_done st1) = dn (lg_init o (h_mem hd))).
     { unfold st1. destruct o; cbn; try exact Hd0; apply assoc_unassoc_eq. }
     assert (Hc1 : c4_commits st1 = txs_of γ (w_fs w)) by (unfold st1; rewrite st_call_commits; exact Hc).
@@ -1791,7 +2214,7 @@ Proof.
       - apply keepsT_refl. }
     destruct (call_prog att o (h_mem hd)) as [[m r]|q k] eqn:Ecp.
     + inversion H; subst w' evs. clear H.
-      destruct (@finish_inv γ (w_fs w) st1 (w_handles w) h o m r _ rest HG Hc1 Ho1 HI Hok Hd1 Hrest)
+      destruct (@finish_inv γ (w_fs w) st1 (w_handles w) h o m r _ rest HG Hc1 Ho1 HI Hok Hd1)
         as (W & C4 & C5).
       exists γ, (st_ret h st1). split; [exact W|]. split.
       * intros rest'. cbn [app]. rewrite c04_call. apply C4.
@@ -1799,14 +2222,14 @@ Proof.
     + inversion H; subst w' evs. clear H.
       exists γ, st1. split; [|split; [intros; cbn [app]; apply c04_call|reflexivity]].
       apply winv_set; auto.
-      split; [exact Hrest|]. split; [exact Hmem|]. cbn [h_pc].
+      split; [exact Hmem|]. cbn [h_pc].
       exists (lg_init o (h_mem hd)). auto.
   - (* inside a call *)
     destruct Hpc as (lg & HI & Hok & Hp0 & Hd0).
     destruct p as [[m r]|q k].
     + (* the call returns *)
       inversion H; subst w' evs. clear H.
-      destruct (@finish_inv γ (w_fs w) st (w_handles w) h o m r lg (h_script hd) HG Hc Hothers HI Hok Hd0 Hscr)
+      destruct (@finish_inv γ (w_fs w) st (w_handles w) h o m r lg (h_script hd) HG Hc Hothers HI Hok Hd0)
         as (W & C4 & C5).
       exists γ, (st_ret h st). split; [exact W|]. split; [exact C4|]. intros; apply C5.
     + (* one file-system operation *)
@@ -1846,7 +2269,7 @@ Proof.
         intros n A B. eapply (sp_rm SP); eauto. }
       destruct (k rs) as [[m r]|q' k'] eqn:Ek.
       * inversion H; subst w' evs. clear H. cbn [ok] in Hk.
-        destruct (@finish_inv γ' s' st1 (w_handles w) h o m r _ (h_script hd) (sp_GI SP) Hc1 Ho1 (sp_interp SP) Hk Hd1 Hscr)
+        destruct (@finish_inv γ' s' st1 (w_handles w) h o m r _ (h_script hd) (sp_GI SP) Hc1 Ho1 (sp_interp SP) Hk Hd1)
           as (W & C4 & C5).
         exists γ', (st_ret h st1). split; [exact W|]. split.
         -- intros rest. cbn [app]. rewrite E4. apply C4.
@@ -1855,7 +2278,7 @@ Proof.
         exists γ', st1. split; [|split; [intros; cbn [app]; apply E4|intros; cbn [app w_fs]; apply E5]].
         apply winv_set; auto.
         -- apply (sp_GI SP).
-        -- split; [exact Hscr|]. split.
+        -- split.
            ++ cbn [h_mem]. intros mm E. eapply memok_stable; [exact HG|apply (sp_frame SP)|]. apply Hmem. exact E.
            ++ cbn [h_pc]. exists (nxt lg q rs). split; [apply (sp_interp SP)|]. auto.
 Qed.
@@ -1870,7 +2293,7 @@ Proof.
   destruct (nth_error (w_handles w) h) as [hd|] eqn:En.
   - inversion H; subst w' evs. clear H. split; [|split].
     + apply winv_set; auto.
-      destruct (Hh h hd En) as (_ & Hmem & _). split; [reflexivity|]. split; [exact Hmem|exact I].
+      destruct (Hh h hd En) as (Hmem & _). split; [exact Hmem|exact I].
     + intros rest. cbn [app c04_loop]. destruct st; reflexivity.
     + intros rest. reflexivity.
   - inversion H; subst w' evs. split; [split; [exact HG|split; assumption]|]. split; reflexivity.
@@ -1935,14 +2358,14 @@ Definition st_init (tabs : list (nat * tfile)) : c04_state :=
   {| c4_commits := snap_txs (snapshot_of (init_fs tabs)); c4_pending := []; c4_done := [] |}.
 
 Lemma WInv_init : forall tabs scripts,
-  init_ok tabs -> Forall (fun s => forallb modelled s = true) scripts ->
+  init_ok tabs ->
   WInv (ghost0 tabs) (init_world tabs scripts) (st_init tabs).
 Proof.
-  intros tabs scripts Hi Hs. pose proof (@GI_init tabs Hi) as HG.
+  intros tabs scripts Hi. pose proof (@GI_init tabs Hi) as HG.
   split; [exact HG|]. split; [apply (snap_txs_snapshot HG)|].
   cbn [init_world w_handles w_fs]. intros i hd E. apply nth_error_In in E.
-  apply in_map_iff in E as [s [<- Hin]]. rewrite Forall_forall in Hs.
-  split; [cbn; apply Hs; exact Hin|]. split; [cbn; intros; discriminate|]. cbn. auto.
+  apply in_map_iff in E as [s [<- Hin]].
+  split; [cbn; intros; discriminate|]. cbn. auto.
 Qed.
 
 (* ------------------------------------------------------------------ *)
@@ -1981,7 +2404,7 @@ Proof.
                  f_tlocks := tl; f_tmps := f_tmps s; f_next_tab := f_next_tab s; f_next_tmp := f_next_tmp s |}).
   { intros. repeat split; cbn; auto. }
   assert (Hs : keys_ok s) by (repeat split; auto).
-  destruct q as [p| |n|t| |t mn mx txs|names|p|cands| ]; cbn [apply_req] in H.
+  destruct q as [p| |n|t| |t mn mx txs|names|p|cands|cands| ]; cbn [apply_req] in H.
   - destruct p; try (inversion H; subst; exact Hs).
     + destruct (f_lock s); inversion H; subst; [exact Hs|apply Hsame].
     + destruct (lookup n (f_tlocks s)); inversion H; subst; [exact Hs|apply Hsame].
@@ -2005,6 +2428,8 @@ Proof.
     + destruct (lookup n (f_tmps s)); inversion H; subst; [apply Hdm|exact Hs].
   - match type of H with context [lookup ?x (f_tabs s)] => destruct (lookup x (f_tabs s)) end;
       inversion H; subst; [apply Hdt|exact Hs].
+  - match type of H with context [lookup ?x (f_tabs s)] => destruct (lookup x (f_tabs s)) end;
+      inversion H; subst; exact Hs.
   - inversion H; subst; exact Hs.
 Qed.
 
@@ -2015,25 +2440,25 @@ Qed.
 (* property C05: at every instant tables.list names existing tables with strictly
    increasing ranges, and no successful remove ever hits a listed table *)
 Theorem c05_all_traces : forall size_oracle attempts tabs scripts sched,
-  init_ok tabs -> Forall (fun s => forallb modelled s = true) scripts ->
+  init_ok tabs ->
   c05_ok (trace_of size_oracle attempts tabs scripts sched) = true.
 Proof.
-  intros so att tabs scripts sched Hi Hs. unfold c05_ok, trace_of.
+  intros so att tabs scripts sched Hi. unfold c05_ok, trace_of.
   destruct (run so att (init_world tabs scripts) sched) as [w' evs] eqn:E. cbn [snd c05_loop].
   rewrite (@list_ok_snapshot _ _ (@GI_init tabs Hi)). cbn [andb].
-  exact (proj2 (@run_inv so att sched _ _ _ _ _ (@WInv_init tabs scripts Hi Hs) E)).
+  exact (proj2 (@run_inv so att sched _ _ _ _ _ (@WInv_init tabs scripts Hi) E)).
 Qed.
 
 (* property C04: the transactions held by the listed tables, in order, are always
    exactly the committed ones in commit order; Add returns success iff its
    transaction committed during the call; no other errors *)
 Theorem c04_all_traces : forall size_oracle attempts tabs scripts sched,
-  init_ok tabs -> Forall (fun s => forallb modelled s = true) scripts ->
+  init_ok tabs ->
   c04_ok (trace_of size_oracle attempts tabs scripts sched) = true.
 Proof.
-  intros so att tabs scripts sched Hi Hs. unfold c04_ok, trace_of.
+  intros so att tabs scripts sched Hi. unfold c04_ok, trace_of.
   destruct (run so att (init_world tabs scripts) sched) as [w' evs] eqn:E. cbn [snd c04_loop].
-  exact (proj1 (@run_inv so att sched _ _ _ _ _ (@WInv_init tabs scripts Hi Hs) E)).
+  exact (proj1 (@run_inv so att sched _ _ _ _ _ (@WInv_init tabs scripts Hi) E)).
 Qed.
 
 Print Assumptions c05_all_traces.
